@@ -5,7 +5,7 @@ import Dmn.Model.Json
 # The HTTP handlers of `server/src/server.rs` as functions onto the workspace model
 
 `do_add_definitions`, `do_replace_definitions`, `do_remove_definitions`,
-`do_clear_definitions`, `do_deploy_definitions`, `do_evaluate` (`server.rs:425-540`),
+`do_clear_definitions`, `do_deploy_definitions`, `do_evaluate` (`server.rs:425-551`),
 statement by statement, over `Dmn.WS.State` (the model of `Workspace`, property C17).
 
 Not modelled (parameters of the model): actix-web routing and JSON extraction, `base64`,
@@ -67,7 +67,7 @@ def Resp.isError : Resp → Bool
   | _ => false
 
 /-- The nested `if let`s of `do_add_definitions` / `do_replace_definitions`
-(`server.rs:436-457`, `:462-485`) up to the workspace call. -/
+(`server.rs:434-455`, `:460-483`) up to the workspace call. -/
 def classify (c : Codec) (content : Option (List Char)) : Except Err Def :=
   match content with
   | none => .error (.missingParameter "content")       -- Err(err_missing_parameter("content"))
@@ -88,25 +88,19 @@ def addResult (d : Def) (ok : Resp) : State × Res → State × Resp
   | (s, .errNamespaceExists) => (s, .error (.namespaceExists d.ns))
   | (s, .errNameExists) => (s, .error (.nameExists d.name))
 
-/-- `do_add_definitions` (`server.rs:436-457`). -/
+/-- `do_add_definitions` (`server.rs:434-455`). -/
 def do_add (c : Codec) (s : State) (content : Option (List Char)) : State × Resp :=
   match classify c content with
   | .error e => (s, .error e)
   | .ok d => addResult d (.added d.ns d.name) (WS.add s d)
 
-/-- `do_replace_definitions` (`server.rs:462-485`): the code calls `workspace.add` (F18). -/
+/-- `do_replace_definitions` (`server.rs:460-483`): `workspace.replace(definitions)?`. -/
 def do_replace (c : Codec) (s : State) (content : Option (List Char)) : State × Resp :=
-  match classify c content with
-  | .error e => (s, .error e)
-  | .ok d => addResult d (.status "definitions replaced") (WS.add s d)
-
-/-- `do_replace_definitions` with the repair: `workspace.replace(definitions)?`. -/
-def do_replaceFixed (c : Codec) (s : State) (content : Option (List Char)) : State × Resp :=
   match classify c content with
   | .error e => (s, .error e)
   | .ok d => addResult d (.status "definitions replaced") (WS.replace s d)
 
-/-- `do_remove_definitions` (`server.rs:490-505`). -/
+/-- `do_remove_definitions` (`server.rs:486-499`). -/
 def do_remove (s : State) (ns name : Option String) : State × Resp :=
   match ns with
   | some ns =>
@@ -115,13 +109,13 @@ def do_remove (s : State) (ns name : Option String) : State × Resp :=
     | none => (s, .error (.missingParameter "name"))
   | none => (s, .error (.missingParameter "namespace"))
 
-/-- `do_clear_definitions` (`server.rs:427-432`). -/
+/-- `do_clear_definitions` (`server.rs:425-430`). -/
 def do_clear (s : State) : State × Resp := (WS.clear s, .status "definitions cleared")
 
-/-- `do_deploy_definitions` (`server.rs:509-516`; `Workspace::deploy` always returns `Ok`). -/
+/-- `do_deploy_definitions` (`server.rs:503-510`; `Workspace::deploy` always returns `Ok`). -/
 def do_deploy (s : State) : State × Resp := (WS.deploy s, .status "definitions deployed")
 
-/-- `do_evaluate` (`server.rs:544-558`) under the read lock: the workspace is not changed.
+/-- `do_evaluate` (`server.rs:537-551`) under the read lock: the workspace is not changed.
 `input` is what `evaluate_context` made of the request body; `eval` is the deployed model
 evaluator's answer. -/
 def do_evaluate {I : Type} (eval : String → String → I → JV) (s : State) (model invocable : Option String)
@@ -156,11 +150,6 @@ def handle {I : Type} (c : Codec) (eval : String → String → I → JV) (s : S
   | .deploy => do_deploy s
   | .evaluate m i x => do_evaluate eval s m i x
 
-/-- The service with the replace handler repaired. -/
-def handleFixed {I : Type} (c : Codec) (eval : String → String → I → JV) (s : State) : Request I → State × Resp
-  | .replace content => do_replaceFixed c s content
-  | r => handle c eval s r
-
 /-- The answers to a sequence of requests, and the final state. -/
 def serve {I : Type} (c : Codec) (eval : String → String → I → JV) (s : State) : List (Request I) → State × List Resp
   | [] => (s, [])
@@ -193,12 +182,6 @@ def respOf : Op → Res → Resp
   | .clear, _ => .status "definitions cleared"
   | .deploy, _ => .status "definitions deployed"
 
-/-- The region in which the unrepaired replace handler is right: no stored model has the
-namespace or the name of the replacing one. -/
-def replaceFresh (s : State) : Op → Bool
-  | .replace d => s.defs.all (fun e => e.ns != d.ns && e.name != d.name)
-  | _ => true
-
 /-! ## Response bodies -/
 
 def kNamespace : List Char := ['n', 'a', 'm', 'e', 's', 'p', 'a', 'c', 'e']
@@ -216,11 +199,6 @@ def Resp.body : Resp → List Char
   | .value v => dataBody v
   | .error e => errorBody e.message
 
-/-- The body with `jsonify` repaired. -/
-def Resp.bodyFixed : Resp → List Char
-  | .value v => dataBodyFixed v
-  | r => r.body
-
 /-- The JSON document a response stands for. -/
 def Resp.json : Resp → Json
   | .added ns name => .obj [(kData, .obj [(kNamespace, .str ns.toList), (kName, .str name.toList)])]
@@ -228,11 +206,7 @@ def Resp.json : Resp → Json
   | .value v => .obj [(kData, toJson v)]
   | .error e => .obj [(kErrors, .arr [.obj [(kDetails, .str e.message)]])]
 
-/-- Side condition of the unrepaired renderer for a whole response. -/
-def Resp.noEscapeNeeded : Resp → Bool
-  | .value v => Json.noEscapeNeeded v
-  | _ => true
-
+/-- Every number text inside an evaluated value is a number of the JSON grammar. -/
 def Resp.numbersOk : Resp → Bool
   | .value v => Json.numbersOk v
   | _ => true
